@@ -92,7 +92,7 @@ class _Canon(ast.NodeTransformer):
     `not a < b` and `a >= b` differ for unordered values).  Positions are preserved."""
 
     def visit_Expr(self, n: ast.Expr):
-        # `xs.extend(f(v) for v in it)`  ->  `for v in it: xs.append(f(v))`   (a mapping; the plain copy `[v for v in it]` is left alone)
+        # `xs.extend(f(v) for v in it if c)`  ->  `for v in it: if c: xs.append(f(v))`   (a mapping or a filter; the plain copy `[v for v in it]` is left alone)
         c = n.value
         if isinstance(c, ast.Call) and isinstance(c.func, ast.Attribute) and c.func.attr == "extend" and len(c.args) == 1 and not c.keywords \
                 and isinstance(c.args[0], (ast.GeneratorExp, ast.ListComp)) and len(c.args[0].generators) == 1 and not c.args[0].generators[0].is_async:
@@ -109,7 +109,7 @@ class _Canon(ast.NodeTransformer):
                     k = inside.setdefault(x.id, [0, 0])
                     k[0 if isinstance(x.ctx, ast.Load) else 1] += 1
             private = bool(stack) and all(stack[-1].get(t, [0, 0]) == inside.get(t) for t in tnames)     # the loop variable is used nowhere else
-            if isinstance(pure, ast.Name) and private and not (isinstance(c.args[0].elt, ast.Name) and c.args[0].elt.id in tnames):
+            if isinstance(pure, ast.Name) and private and (g.ifs or not (isinstance(c.args[0].elt, ast.Name) and c.args[0].elt.id in tnames)):
                 app = ast.Expr(value=ast.Call(func=ast.Attribute(value=recv, attr="append", ctx=ast.Load()), args=[c.args[0].elt], keywords=[]))
                 inner: ast.stmt = ast.copy_location(app, n)
                 for t in reversed(g.ifs):
@@ -342,9 +342,152 @@ class _Canon(ast.NodeTransformer):
         try:
             n = self.generic_visit(n)
             self._field_copies(n, counts)
+            self._entry_aliases(n, counts)
+            self._item_copies(n, counts)
             return n
         finally:
             stack.pop()
+
+    @staticmethod
+    def _loads_of_binding(fn: ast.FunctionDef, st: ast.Assign) -> int:
+        """How many reads of the name belong to this binding: those between it and the next binding of the name in the text (0 when
+        the name is also read before its first binding, or declared global / nonlocal -- then positions say nothing)."""
+        name = st.targets[0].id
+        occ = [x for x in ast.walk(fn) if isinstance(x, ast.Name) and x.id == name]
+        if any(not hasattr(x, "lineno") for x in occ) or not hasattr(st, "lineno"):
+            ast.fix_missing_locations(fn)
+            if any(not hasattr(x, "lineno") for x in occ):
+                return 0
+        if any(isinstance(x, (ast.Global, ast.Nonlocal)) and name in x.names for x in ast.walk(fn)):
+            return 0
+        stores = sorted(x.lineno for x in occ if isinstance(x.ctx, (ast.Store, ast.Del)))
+        if any(isinstance(x.ctx, ast.Load) and x.lineno < stores[0] for x in occ):
+            return 0
+        nxt = min((l for l in stores if l > st.lineno), default=float("inf"))
+        if sum(1 for l in stores if l == st.lineno) != 1:
+            return 0
+        return sum(1 for x in occ if isinstance(x.ctx, ast.Load) and st.lineno < x.lineno < nxt) \
+            + sum(1 for x in occ if isinstance(x.ctx, ast.Load) and x.lineno == st.lineno and not any(x is y for y in ast.walk(st)))
+
+    def _item_copies(self, fn: ast.FunctionDef, counts: dict) -> None:
+        """`first = pair[0]` used in the statements that follow, while `pair` is only appended to, is `pair[0]`."""
+        def scan(block: list[ast.stmt]):
+            i = 0
+            while i < len(block):
+                st = block[i]
+                for fld in ("body", "orelse", "finalbody"):
+                    b = getattr(st, fld, None)
+                    if isinstance(b, list) and b and isinstance(b[0], ast.stmt):
+                        scan(b)
+                if isinstance(st, ast.Try):
+                    for h in st.handlers:
+                        scan(h.body)
+                if isinstance(st, ast.Assign) and len(st.targets) == 1 and isinstance(st.targets[0], ast.Name) and isinstance(st.value, ast.Subscript) \
+                        and isinstance(st.value.value, ast.Name) and isinstance(st.value.slice, ast.Constant) and isinstance(st.value.slice.value, int) \
+                        and st.value.slice.value >= 0 and st.value.value.id != st.targets[0].id \
+                        and 1 <= self._loads_of_binding(fn, st) <= 12:
+                    name, owner = st.targets[0].id, st.value.value.id
+                    total = self._loads_of_binding(fn, st)
+                    seen, j, ok = 0, i + 1, True
+                    while j < len(block) and seen < total and ok:
+                        nxt = block[j]
+                        seen += sum(1 for x in ast.walk(nxt) if isinstance(x, ast.Name) and x.id == name and isinstance(x.ctx, ast.Load))
+                        for x in ast.walk(nxt):
+                            if isinstance(x, ast.Name) and x.id == owner and isinstance(x.ctx, (ast.Store, ast.Del)):
+                                ok = False
+                            if isinstance(x, ast.Subscript) and isinstance(x.ctx, (ast.Store, ast.Del)) and isinstance(x.value, ast.Name) and x.value.id == owner:
+                                ok = False
+                            if isinstance(x, ast.Call):
+                                if isinstance(x.func, ast.Attribute) and isinstance(x.func.value, ast.Name) and x.func.value.id == owner and x.func.attr not in ("append", "extend", "index", "count", "copy"):
+                                    ok = False
+                                if any(isinstance(a, ast.Name) and a.id == owner for a in list(x.args) + [k.value for k in x.keywords]):
+                                    ok = False
+                            if isinstance(x, (ast.For, ast.While)) and any(isinstance(y, ast.Name) and y.id == name for y in ast.walk(x)):
+                                ok = False
+                        j += 1
+                    if ok and seen == total:
+                        item = st.value
+
+                        class _S(ast.NodeTransformer):
+                            def visit_Name(self2, x):
+                                if x.id == name and isinstance(x.ctx, ast.Load):
+                                    return ast.copy_location(copy.deepcopy(item), x)
+                                return x
+                        for nxt in block[i + 1:j]:
+                            _S().visit(nxt)
+                        del block[i]
+                        continue
+                i += 1
+        scan(fn.body)
+
+    def _entry_aliases(self, fn: ast.FunctionDef, counts: dict) -> None:
+        """`inner = table.setdefault(key, default)` followed, in the same block, by uses of `inner` is `table.setdefault(key, default)` and
+        uses of `table[key]`: the entry is the same object as long as neither the table's entry nor the key's variables are rebound."""
+        def scan(block: list[ast.stmt]):
+            for i, st in enumerate(block):
+                for fld in ("body", "orelse", "finalbody"):
+                    b = getattr(st, fld, None)
+                    if isinstance(b, list) and b and isinstance(b[0], ast.stmt):
+                        scan(b)
+                if isinstance(st, ast.Try):
+                    for h in st.handlers:
+                        scan(h.body)
+                by_default = isinstance(st, ast.Assign) and len(st.targets) == 1 and isinstance(st.targets[0], ast.Name) and isinstance(st.value, ast.Call) \
+                    and isinstance(st.value.func, ast.Attribute) and st.value.func.attr == "setdefault" and isinstance(st.value.func.value, ast.Name) \
+                    and len(st.value.args) == 2 and not st.value.keywords
+                # `inner = table[key]` with a computed key: the same, without the default
+                by_key = isinstance(st, ast.Assign) and len(st.targets) == 1 and isinstance(st.targets[0], ast.Name) and isinstance(st.value, ast.Subscript) \
+                    and isinstance(st.value.value, ast.Name) and not isinstance(st.value.slice, (ast.Constant, ast.Slice)) \
+                    and any(isinstance(x, ast.Attribute) for x in ast.walk(st.value.slice))
+                if not (by_default or by_key):
+                    continue
+                if by_default:
+                    name, table, key = st.targets[0].id, st.value.func.value.id, st.value.args[0]
+                else:
+                    name, table, key = st.targets[0].id, st.value.value.id, st.value.slice
+                loads, stores = counts.get(name, [0, 0])
+                if loads < 1 or name == table:
+                    continue
+                keynames = {x.id for x in ast.walk(key) if isinstance(x, ast.Name)}
+                if any(isinstance(x, (ast.Call, ast.Await, ast.NamedExpr)) for x in ast.walk(key)):
+                    continue
+                rest = block[i + 1:]
+                seen = sum(1 for y in rest for x in ast.walk(y) if isinstance(x, ast.Name) and x.id == name and isinstance(x.ctx, ast.Load))
+                ok = True
+                if seen != loads or stores != 1:
+                    # other uses of the name: fine when each of them reads a later binding (`for inner in table.values(): ...` further down)
+                    inside = {id(x) for y in rest for x in ast.walk(y)} | {id(st.targets[0])}
+                    end = max((getattr(x, "lineno", 0) for y in rest for x in ast.walk(y)), default=st.lineno)
+                    others = [x for x in ast.walk(fn) if isinstance(x, ast.Name) and x.id == name and id(x) not in inside]
+                    later = sorted(x.lineno for x in others if isinstance(x.ctx, ast.Store) and x.lineno > end)
+                    ok = seen >= 1 and all(x.lineno > end and later and later[0] <= x.lineno for x in others) \
+                        and not any(isinstance(x, ast.Name) and x.id == name and isinstance(x.ctx, (ast.Store, ast.Del)) for y in rest for x in ast.walk(y))
+                for y in rest:
+                    for x in ast.walk(y):
+                        if isinstance(x, ast.Name) and isinstance(x.ctx, (ast.Store, ast.Del)) and (x.id == table or x.id in keynames):
+                            ok = False
+                        if isinstance(x, ast.Subscript) and isinstance(x.ctx, (ast.Store, ast.Del)) and isinstance(x.value, ast.Name) and x.value.id == table:
+                            ok = False
+                        if isinstance(x, ast.Call) and isinstance(x.func, ast.Attribute) and isinstance(x.func.value, ast.Name) and x.func.value.id == table \
+                                and x.func.attr in ("pop", "popitem", "clear", "update", "__setitem__", "__delitem__"):
+                            ok = False
+                        if isinstance(x, ast.Attribute) and isinstance(x.ctx, (ast.Store, ast.Del)) and any(
+                                isinstance(k, ast.Attribute) and k.attr == x.attr for k in ast.walk(key)):
+                            ok = False
+                if not ok:
+                    continue
+
+                class _S(ast.NodeTransformer):
+                    def visit_Name(self2, x):
+                        if x.id == name and isinstance(x.ctx, ast.Load):
+                            return ast.copy_location(ast.Subscript(value=ast.Name(id=table, ctx=ast.Load()), slice=copy.deepcopy(key), ctx=ast.Load()), x)
+                        return x
+                for y in rest:
+                    _S().visit(y)
+                block[i] = ast.copy_location(ast.Expr(value=st.value), st) if by_default else ast.copy_location(ast.Pass(), st)
+            if len(block) > 1 and any(isinstance(b_, ast.Pass) for b_ in block):
+                block[:] = [b_ for b_ in block if not isinstance(b_, ast.Pass)] or block[:1]
+        scan(fn.body)
 
     def _field_copies(self, fn: ast.FunctionDef, counts: dict) -> None:
         """`k = self.key` read a few statements later, with nothing in between that could change the field, is `self.key`:
